@@ -34,6 +34,10 @@ class CallableObj(object):
         return self.world.deliver(self.idx, args, ctx)
 
 
+class Box(object):
+    pass
+
+
 class World(object):
     """One run of one history on one target (real or model).  Identical scripting logic for both."""
 
@@ -47,6 +51,7 @@ class World(object):
         # contexts that outlive the subscription: the listener is bound to the mapping itself, so what it receives is the
         # mapping's content at delivery time (two start empty, one does not)
         self.shared = [{}, {}, {'s': 0}]
+        self.emitting = []
         self.cbs = []
         for i in range(NCB):
             kind = i % 4
@@ -76,10 +81,27 @@ class World(object):
             return self.shared[spec[1]]
         return dict(spec)
 
+    @staticmethod
+    def mkarg(k):
+        # emitted arguments are not only numbers: containers and plain objects are handed over as they are
+        return [k] if k == 7 else ({'k': k} if k == 8 else (Box() if k == 9 else k))
+
+    @staticmethod
+    def snapshot(x):
+        return ('list', tuple(x)) if isinstance(x, list) else (('dict', tuple(sorted(map(repr, x.items())))) if isinstance(x, dict) else ('box' if isinstance(x, Box) else x))
+
     def deliver(self, i, args, ctx):
         self.deliveries += 1
         self.returns = getattr(self, 'returns', None) or [False, None, 0, True, '', 'stop', self.t, StopIteration, NotImplemented, (), [False]]
-        self.log.append((i, args, tuple(sorted(ctx.items()))))
+        top = self.emitting[-1] if self.emitting else None
+        # 'called with the emitted arguments': the very objects, so what one listener does to a container the next one finds
+        same = top is not None and len(args) == len(top) and all(x is y for x, y in zip(args, top))
+        self.log.append((i, tuple(self.snapshot(a) for a in args), tuple(sorted(ctx.items()))) + (() if same else ('not-the-emitted-objects',)))
+        for a in args:
+            if isinstance(a, list) and len(a) < 6:
+                a.append(i)
+            elif isinstance(a, dict) and len(a) < 6:
+                a[i] = True
         if self.deliveries > MAX_DELIVERIES:
             return
         for act in self.scripts.get(i, ()):
@@ -107,7 +129,12 @@ class World(object):
             elif kind == 'off':
                 r = self.t.off(name) if act[2] is None else self.t.off(name, self.cb(act[2]))
             else:
-                r = self.t.emit(name, name, *act[2])
+                objs = (name,) + tuple(self.mkarg(a) for a in act[2])
+                self.emitting.append(objs)
+                try:
+                    r = self.t.emit(name, *objs)
+                finally:
+                    self.emitting.pop()
             return r
         finally:
             self.depth -= 1
@@ -257,6 +284,8 @@ class Check(BaseCheck):
             ([('on', 'a', 0, ('shared', 0)), ('ctx', 0, 'k', 1), ('emit', 'a', ()), ('ctx', 0, 'k', None), ('emit', 'a', ())], {}),
             ([('once', 'a', 1, ('shared', 1)), ('ctx', 1, 'q', 'w'), ('emit', 'a', ())], {}),
             ([('on', 'a', 0, None), ('on', 'a', 1, ('shared', 0)), ('emit', 'a', ())], {0: [('ctx', 0, 'k', 2)]}),
+            ([('on', 'a', 0, None), ('on', 'a', 1, None), ('on', 'a', 2, None), ('emit', 'a', (7, 8, 9)), ('emit', 'a', (7,))], {}),
+            ([('on', 'a', 0, None), ('emit', 'a', (7, 8))], {}),
         ]
         for hist, scripts in hs:
             self.one(rec, hist, scripts, Emitter, 'emitter')
